@@ -166,6 +166,18 @@ def run(ctx):
         isinstance(c.func, (ast.Name, ast.Attribute)) and idx.canon(c.func, tc.module) == "gwf.plugins.touch.touch_workflow" for c in _calls(n)) for n in walk_no_nested(tc.node))
     r3.check(w_ok, f"{tc.module.relpath}::{tc.qual}::with", "touching happens inside the with-block of the hash store", "touch_workflow is not enclosed by the spec-hash store's with-block", tc.where)
 
+    r5 = ctx.rule("R5", "the touch command evaluated on a witness project (chains, shared dependency, output-less aggregate, unrelated endpoint): cone, order, hashes")
+    from .evalhelpers import touch_command_witness
+    n_w, diffs, unsup = touch_command_witness(ctx)
+    tcon5 = "src/gwf/plugins/touch.py::touch::witness-project"
+    if unsup is not None and not diffs:
+        r5.info(tcon5, f"not evaluated ({unsup}); the structural rules R1-R4 decide")
+        r5.ok(tcon5 + "::fallback", "decided structurally (R1-R4)", "src/gwf/plugins/touch.py:1")
+    elif diffs:
+        for d in diffs[:3]:
+            r5.violation(tcon5, d, "src/gwf/plugins/touch.py:1")
+    else:
+        r5.ok(tcon5, f"{n_w} invocations: exactly the cone's outputs are touched once, dependencies first, hashes recorded inside the store", "src/gwf/plugins/touch.py:1")
     r4 = ctx.rule("R4", "missing outputs are created as empty files also when their directory does not exist yet")
     nomk = [t for t in sem.touches if not t[1].facts.get("mkdir_before_touch")]
     ok = sem.touches and not nomk
